@@ -105,6 +105,33 @@ def case_map(name):
                   key=f"Map{name} forward(backward) != id",
                   cex=dict(kind='roundtrip', map=name) if vd == 'cex'
                   else None))
+    # results are fresh arrays: two results held at once are independent,
+    # inputs are not modified
+    t1 = time.time()
+    y2 = Q.var('y2')
+    if name in ('Conductivity', 'Resistivity'):
+        c.assume(B(y2.t > 0))
+    x2arr = np.array([y2], dtype=object).view(symx.SymArray)
+    fresh_ok = True
+    for fn in (M.backward, M.forward):
+        r1 = fn(xarr)
+        first = r1[0]
+        r2 = fn(x2arr)
+        now = r1[0]                 # the earlier result, after a second call
+        again = fn(xarr)[0]
+        if not (
+                symx.qt(now).eq(symx.qt(first)) and
+                symx.qt(xarr[0]).eq(x.t) and
+                c.valid(symx.qt(first) == symx.qt(again),
+                        label='fresh')[0] == 'held'):
+            fresh_ok = False
+    obs.append(ob("forward/backward return fresh arrays: a second call "
+                  "does not change an earlier result, inputs unmodified",
+                  'held' if fresh_ok else 'cex', group=grp, cls='UF+NRA',
+                  seconds=time.time()-t1,
+                  key=f"Map{name} results share a buffer",
+                  cex=dict(kind='fresh', map=name) if not fresh_ok
+                  else None))
     # backward gives a positive conductivity
     t1 = time.time()
     bx = M.backward(xarr)[0]
@@ -391,6 +418,22 @@ def replay(cex):
             f"Map{name} on 50 conductivities over 12 decades: "
             f"|b(f(s))/s-1|={e1:.2e}, |f(b(x))-x|={e2:.2e}, "
             f"non-positive backward: {neg}")
+    if kind == 'fresh':
+        sig1 = 10**rng.uniform(-3, 3, 20)
+        sig2 = 10**rng.uniform(-3, 3, 20)
+        msgs = []
+        for fn, a1, a2 in ((M.backward, M.forward(sig1), M.forward(sig2)),
+                           (M.forward, sig1, sig2)):
+            keep_in = a1.copy()
+            r1 = fn(a1)
+            k1 = r1.copy()
+            r2 = fn(a2)
+            if not np.array_equal(r1, k1) or \
+                    not np.array_equal(a1, keep_in):
+                msgs.append(f"{fn.__name__}: a second call changed the "
+                            f"first result (or the input)")
+        return bool(msgs), (f"Map{name}: " + ('; '.join(msgs) or
+                                              'results are independent'))
     if kind == 'chain':
         sig = 10**rng.uniform(-3, 3, 20)
         x = M.forward(sig)
